@@ -117,7 +117,7 @@ func GenDocV2(p *simrt.Tape, o GenOpts) *DocV2 {
 		d.Relays = append(d.Relays, RelayEntry{Addr: a, Vals: genVals(p, density, true)})
 	}
 	if o.UnusableRelay > 0 && p.Pct(o.UnusableRelay) {
-		d.Relays = append(d.Relays, RelayEntry{Addr: UnusableRelay, Vals: genVals(p, density, true)})
+		d.Relays = append(d.Relays, RelayEntry{Addr: []int{UnusableRelay, RejectedRelay}[p.Pick(2)], Vals: genVals(p, density, true)})
 	}
 	np := p.Range(0, o.MaxProposers)
 	unres := -1
